@@ -66,7 +66,10 @@ def check_roundtrip(chk, prog, cfg):
         try:
             r = grammar.reader(prog, path)
         except grammar.Unrecognised as e:
-            chk.unrecognised("R7.2", "type:" + short, prog.adts[path]["loc"], "reader: %s" % e, cfg)
+            if str(e).startswith("DEFAULT-SUBSTITUTION"):
+                chk.fail("R7.2", "type:" + short, prog.adts[path]["loc"], "reader of %s: %s" % (short, str(e)[len("DEFAULT-SUBSTITUTION: "):]), cfg)
+            else:
+                chk.unrecognised("R7.2", "type:" + short, prog.adts[path]["loc"], "reader: %s" % e, cfg)
             continue
         chk.count("decode_bodies")
         where = r[4].where()
